@@ -122,7 +122,7 @@ FilterResMatches(w, e) ==
     /\ (e.typ = "filter" /\ ResOk(e)) =>
           LET pn == ops[e.op].loc.podname IN pn \in DOMAIN w.filtered /\ w.filtered[pn].nodes = ToSet(e.res.nodes)
     \* preempt answers with the candidates it keeps (all of them when it could not compute the subnets)
-    /\ (e.typ = "preempt" /\ Has(e, "res")) =>
+    /\ (e.typ = "preempt" /\ Has(e, "res") /\ Has(e.res, "nodes")) =>
           LET pn == "preempt:" \o ops[e.op].loc.podname IN pn \in DOMAIN w.filtered /\ w.filtered[pn].nodes = ToSet(e.res.nodes)
 
 Hint(e) == IF Has(e, "ret") /\ Has(e.ret, "ips") THEN [ips |-> e.ret.ips] ELSE [x |-> 0]
@@ -239,7 +239,7 @@ GhostNext(e, w) ==
                 THEN [g1 EXCEPT !.filt = Put(g1.filt, e.pod, [own |-> KeyIPs(mem, KeyOf(pods[e.pod])),
                                                               reserve |-> KeyIPs(mem, PoolPrefix(pods[e.pod]))])]
                 \* the segment of a filter that ends with the key lookup is the one that reads the Pool object
-                ELSE IF e.ev = "Step" /\ e.typ = "filter" /\ e.call = "ByKeyAndIPRanges" /\ e.args.key.pool \in DOMAIN poolobj
+                ELSE IF e.ev = "Step" /\ e.typ \in {"filter", "preempt"} /\ e.call = "ByKeyAndIPRanges" /\ e.args.key.pool \in DOMAIN poolobj
                   THEN [g1 EXCEPT !.sizeAt = Put(g1.sizeAt, e.op, poolobj[e.args.key.pool].size)]
                 ELSE g1
         g3 == IF e.ev = "StartPoolUpsert" THEN [g2 EXCEPT !.sizeAt = Put(g2.sizeAt, e.op, e.size)] ELSE g2
